@@ -125,6 +125,25 @@ Report(tag, c, vs) == \A v \in vs : PrintT(<<tag, ToJson(Inst(c, v) @@ [devs |->
                                           LET needed == {d \in Dev : v \notin PredViolD(c, Dev \ {d})} IN
                                           IF needed # {} THEN needed ELSE {d \in Dev : v \in PredViolD(c, {d})}])>>)
 
+\* reader half, step level: the field list the reader pushes for a component is the one Build!BuiltFields gives
+\* (without the type, which the reader keeps as text); a difference is drift and tells reader from writer defects
+PushW(f) == IF f.vec THEN "Vec" ELSE IF f.opt \/ f.choice THEN "Option" ELSE "Bare"
+PushShape(fs) == [i \in 1..Len(fs) |-> [xml |-> fs[i].n, attr |-> fs[i].attr, w |-> PushW(fs[i]),
+                                         ns |-> IF fs[i].attr THEN "-" ELSE fs[i].ns]]
+BuiltShape(fs) == [i \in 1..Len(fs) |-> [xml |-> fs[i].xml, attr |-> fs[i].attr, w |-> fs[i].w,
+                                          ns |-> IF fs[i].attr THEN "-" ELSE fs[i].ns]]
+CompFor(kind, ns, name) == {c \in StructComps(S) : UriStr(c.ns) = ns /\ NameXml(c.n) = name
+                                                    /\ c.k = (IF kind = "complex" THEN "complex" ELSE "element")}
+TrPush ==
+  /\ IsEvent("push_node")
+  /\ IF cur # None /\ ev.kind \in {"complex", "element_complex"} /\ CompFor(ev.kind, ev.ns, ev.name) # {}
+     THEN LET c == CHOOSE x \in CompFor(ev.kind, ev.ns, ev.name) : TRUE
+              built == BuiltShape(FieldsStr(BuiltFields(S, FileNamed(S, c.f), c.it, BodyOf(c), 8, Dev)))
+          IN (PushShape(ev.fields) # built) =>
+                PrintT(<<"DRIFT", ToJson([id |-> cur.id, what |-> "reader: the fields pushed for " \o ev.name \o " differ from Build!BuiltFields"])>>)
+     ELSE TRUE
+  /\ UNCHANGED <<cur, rd>>
+
 TrWritten ==
   /\ IsEvent("written")
   /\ IF "out" \notin DOMAIN ev \/ ~ev.out.parses
@@ -150,9 +169,9 @@ TrDone ==
   /\ TLCSet(1, TLCGet(1) + 1)
   /\ UNCHANGED <<cur, rd>>
 
-TrOther == l <= Len(Rec) /\ ev.ev \notin {"case", "ret", "written", "done"} /\ l' = l + 1 /\ UNCHANGED <<cur, rd>>
+TrOther == l <= Len(Rec) /\ ev.ev \notin {"case", "ret", "written", "done", "push_node"} /\ l' = l + 1 /\ UNCHANGED <<cur, rd>>
 
-TraceNext == TrCase \/ TrRet \/ TrWritten \/ TrDone \/ TrOther
+TraceNext == TrCase \/ TrRet \/ TrPush \/ TrWritten \/ TrDone \/ TrOther
 TraceSpec == TraceInit /\ [][TraceNext]_tvars
 
 Accepted == /\ PrintT(<<"TALLY", TLCGet(1), TLCGet(2), TLCGet(3)>>)
